@@ -21,7 +21,8 @@ RULE = (
     "(2**70 in BSON, a control character in XML), a malformed key file, an unknown format name. Oracle for every "
     "failing save: it raises, the destination's bytes, inode and mtime are identical and sys.audit saw no open of "
     "the destination for writing; for the successful save: the file content equals the bytes the formatter "
-    "returned inside that call and load(dest) gives a configuration equal (C02 equality) to the saved one. "
+    "returned inside that call and load(dest) gives a configuration equal (C02 equality) to the saved one; the same "
+    "for a second configuration of the same schema with the same values under another key file, saved in between. "
     "Non-trivial = an injection point inside a nested field or the cipher; distinct = SHA-1 of the descriptor."
 )
 ASSUMPTIONS = [
@@ -30,7 +31,7 @@ ASSUMPTIONS = [
     "only default format options are used for the load-back clause (Config.load cannot pass options)",
 ]
 REQUIRED = ["size-sweep:bson", "inject:to_basic", "inject:keyfile", "inject:encrypt", "inject:dumps", "natural:unencodable", "natural:unknown-format",
-            "natural:bad-keyfile", "natural:out-of-domain", "success-save"]
+            "natural:bad-keyfile", "natural:out-of-domain", "success-save", "sibling-save"]
 LEVEL_TEXT = (
     "Every step of serialisation of each generated configuration is enumerated and failed once (exhaustive over the "
     "injection points of that configuration), plus naturally failing values; the destination file is compared byte "
@@ -321,6 +322,25 @@ def run_case(case, R):
         # ---- the successful save ------------------------------------------------------------------------------------
         if not serialisable or cfg.validate(collect_errors=True) or not ops.is_plain(cfg.to_tree(), fmt):
             return
+        # another configuration of the same schema, holding the same values under ANOTHER key file, is saved in this
+        # process as well: each file must load back with its own key file
+        sib_key, sib_dest = os.path.join(d, "key-sibling"), os.path.join(d, "sibling." + fmt)
+        sib = world.schema(key_filename=sib_key)
+        c02.populate(world, sib, case)
+        if not sib.validate(collect_errors=True) and ops.is_plain(sib.to_tree(), fmt) and not c02._required_unset(world, sib):
+            try:
+                sib.save(sib_dest, fmt)
+            except Exception as exc:
+                R.fail("save-raises", fmt + ":sibling", "saving a second configuration of the schema raised %r" % (exc,))
+            else:
+                R.label("sibling-save")
+                back = world.schema(key_filename=sib_key)
+                try:
+                    back.load(sib_dest, fmt)
+                except Exception as exc:
+                    R.fail("loads-back", fmt + ":sibling-raises", "a second configuration of the same schema (own key file) was saved after the first: loading its file raised %r" % (exc,))
+                else:
+                    c02.compare(world, sib, back, R, "loads-back:sibling")
         with Injector(cc) as probe:
             try:
                 cfg.save(dest, fmt)
